@@ -91,6 +91,13 @@ func (r *RingBuffer) Pull() (any, bool) {
 		verifyield.Point("ring.Pull.beforeLock")
 		r.mutex.Lock()
 
+		// data pushed after Close() is discarded like the data that was pending,
+		// otherwise it would be returned out of order.
+		if r.closed {
+			r.mutex.Unlock()
+			return nil, false
+		}
+
 		data := r.buffer[r.readIndex]
 
 		if data != nil {
@@ -99,11 +106,6 @@ func (r *RingBuffer) Pull() (any, bool) {
 			r.mutex.Unlock()
 			verifyield.Point("ring.Pull.gotItem")
 			return data, true
-		}
-
-		if r.closed {
-			r.mutex.Unlock()
-			return nil, false
 		}
 
 		verifyield.Point("ring.Pull.wait")
